@@ -8,6 +8,8 @@ package tracer
 import (
 	"encoding/json"
 	"fmt"
+	"os"
+	"runtime/debug"
 	"sort"
 	"strings"
 	"testing"
@@ -401,6 +403,7 @@ func TestVerifC15Attr(t *testing.T) {
 		return
 	}
 	thorough := rep.Thorough()
+	defer debug.SetGCPercent(debug.SetGCPercent(400))
 	pairs := c15Pairs(thorough)
 	mini := map[string]bool{}
 	for _, a := range c15MiniShapes() {
@@ -409,6 +412,22 @@ func TestVerifC15Attr(t *testing.T) {
 		}
 	}
 	r.Count("shape-pairs", int64(len(pairs)))
+	if os.Getenv("VERIF_C15_COUNT") != "" { // development aid: size of the enumeration, nothing is run
+		var total, units, maxN int64
+		for _, p := range pairs {
+			bt := c15Build(p)
+			var n int64
+			c15Interleavings(bt.a, bt.b, func([]byte) { n++ })
+			total += n
+			units += n * int64(len(bt.a)+len(bt.b))
+			if n > maxN {
+				maxN = n
+			}
+		}
+		fmt.Printf("C15 COUNT pairs=%d interleavings=%d frame-slots=%d max-per-pair=%d\n", len(pairs), total, units, maxN)
+		r.Eval(1)
+		return
+	}
 	x := &c15AttrRun{r: r, deadline: rep.Deadline()}
 	for pi, p := range pairs {
 		if x.over() {
